@@ -108,7 +108,11 @@ def project(events, node):
             continue
         if ev == "CallEnd" and kindof.get(e["msg"]) == "rpc":
             e = dict(e, out="ctx" if e.get("out") == "ctx" else "reply")
-        lines.append({k: v for k, v in e.items() if k in KEEP_FIELDS})
+        rec = {k: v for k, v in e.items() if k in KEEP_FIELDS}
+        if ev == "Route":
+            for k, d in (("err", False), ("found", False), ("why", "resp"), ("streaming", False)):
+                rec.setdefault(k, d)
+        lines.append(rec)
     hdr = {"ev": "Hdr", "reqs": reqs, "kinds": kinds, "sendbuf": int(info.get("sendbuf", 0)), "maxepoch": nstreams + 2,
            "chancap": 1, "node": node}
     return [hdr] + lines, ""
@@ -130,6 +134,11 @@ def validate_one(lines, work, name):
         # exhausted: the first line nobody could consume is hwm + 1 (lines are 1-based; line 1 is the header)
         rej = lines[hwm] if hwm < len(lines) else {}
         return False, hwm + 1, gen, "no action of Channel.tla matches line %d: %s" % (hwm + 1, json.dumps(rej))
+    if "Error: " in out and ("evaluat" in out or "Attempted to" in out):
+        # TLC could not evaluate an action on this data (a field of an unexpected shape): the line is not matched
+        rej = lines[hwm] if hwm < len(lines) else {}
+        m = re.search(r"Error: (.*)", out)
+        return False, hwm + 1, gen, "evaluation error near line %d (%s): %s" % (hwm + 1, m.group(1)[:200] if m else "", json.dumps(rej))
     raise Infra("ChannelTrace did not finish for %s:\n%s" % (name, out[-3000:]))
 
 
